@@ -90,6 +90,20 @@ class Rep:
         return self.geno(x)
 
 
+def grammar_snapshot(g):
+    """every public analysis result of the grammar, in a form that does not depend on object addresses"""
+    nm = lambda t: getattr(t, "__qualname__", None) or repr(t)  # noqa: E731
+    return {
+        "alternatives": [[nm(k), [nm(v) for v in vs]] for k, vs in g.alternatives.items()],
+        "all_nodes": sorted(nm(x) for x in g.all_nodes), "ordered_nodes": [nm(x) for x in getattr(g, "ordered_nodes", [])],
+        "terminals": sorted(nm(x) for x in g.terminals), "non_terminals": sorted(nm(x) for x in g.non_terminals),
+        "recursive": sorted(nm(x) for x in g.recursive_prods),
+        "distance": sorted([nm(k), v] for k, v in g.distanceToTerminal.items()),
+        "abstract_dist": sorted([nm(k), sorted([nm(a), b] for a, b in v.items())] for k, v in g.abstract_dist_to_t.items()),
+        "considered": [nm(x) for x in g.considered_subtypes], "start": nm(g.starting_symbol), "xdepth": g.expansion_depthing,
+    }
+
+
 def extends(before, after):
     """dSGE: the only permitted change of a genotype is that gene lists grow at the end / new keys appear"""
     if before[0] != "dsge" or after[0] != "dsge":
@@ -118,6 +132,7 @@ def case_rep(c):
         pos0 = len(shared.tape)
         tape_entry = lambda d: [d[0], d[1] if d[0] == "i" else list(d[1])]  # noqa: E731
         alts0 = alts_obs(g, classes)
+        gs0 = grammar_snapshot(g)
         snaps0 = [R.snapshot(x) for x in reg]
         exp0 = getattr(R.decider, "expanding", None) if R.decider is not None else None
         rec = {"op": op, "inputs": [], "expanding_before": exp0 if isinstance(exp0, bool) else None, "in_ctx": []}
@@ -159,6 +174,10 @@ def case_rep(c):
         rec["res"] = r
         rec["consumed"] = [tape_entry(d) for d in shared.tape[pos0:]]
         rec["alts_before"], rec["alts_after"] = alts0, alts_obs(g, classes)
+        gs1 = grammar_snapshot(g)
+        rec["grammar_same"] = gs0 == gs1
+        if gs0 != gs1:
+            rec["grammar_diff"] = {k: [gs0[k], gs1[k]] for k in gs0 if gs0[k] != gs1[k]}
         snaps1 = [R.snapshot(x) for x in reg[: len(snaps0)]]
         # the one permitted change: dSGE mapping extends the genotype BEING MAPPED (nobody else's genes)
         own = op[1] if kind == "map" else None
